@@ -25,8 +25,9 @@ package fsm
 //@   loop 1 invariant trace-grows: len(trace) >= len(old(trace))
 //@   loop 1 invariant value-events-only: forall i int :: {trace[i]} len(old(trace)) <= i && i < len(trace) ==> trace[i].kind == 5 || trace[i].kind == 6
 //@   loop 1 invariant no-failed-set: forall i int :: len(old(trace)) <= i && i < len(trace) && trace[i].kind == 5 ==> trace[i].b == 1
-//@   loop 1 step protocol: trace == (startTrace(1) ++ clearEvs(con.Value)) ++ setEvs(con.Value, vs, len(vs))
-//@   loop 2 invariant protocol: trace == (startTrace(1) ++ clearEvs(con.Value)) ++ setEvs(con.Value, vs, $k)
+//@   loop 1 step protocol: trace == (startTrace(1) ++ clearEvs(con.Value)) ++ setEvs(con.Value, containers[con], len(containers[con]))
+//@   loop 2 invariant protocol: trace == (startTrace(1) ++ clearEvs(con.Value)) ++ setEvs(con.Value, containers[con], $k)
+//@   loop 2 invariant all-of-them: vs == containers[con]
 //@   loop 2 invariant trace-grows: len(trace) >= len(old(trace))
 //@   loop 2 invariant value-events-only: forall i int :: {trace[i]} len(old(trace)) <= i && i < len(trace) ==> trace[i].kind == 5 || trace[i].kind == 6
 //@   loop 2 invariant no-failed-set: forall i int :: len(old(trace)) <= i && i < len(trace) && trace[i].kind == 5 ==> trace[i].b == 1
